@@ -14,6 +14,31 @@ def classify(o):
     return sig
 
 
+LONG_RUNS = [
+    # (script, expected last printed value): one run makes many thousands of calls / returns / breaks, so that
+    # anything a call, a return out of loops or a break leaves behind adds up to something visible
+    ('define f begin repeat 3 begin repeat 2 begin repeat 2 begin return 1 end end end end '
+     'assign t 0 repeat %(n)d begin assign t {t + [f]} end print t', lambda n: n),
+    ('define f with a begin repeat all as l begin repeat 2 begin if {a > 0} return a end end return 0 end '
+     'assign t 0 repeat %(n)d begin assign t {t + [f 2]} end print t', lambda n: 2 * n),
+    ('assign t 0 repeat %(n)d begin repeat 3 begin repeat 2 begin break end assign t {t + 1} break end end print t', lambda n: n),
+    ('define g with a b begin assign c {a + b} return c end assign t 0 repeat %(n)d begin assign t [g t 1] end print t', lambda n: n),
+    ('define h with k begin if {k <= 0} return 0 return {1 + [h {k - 1}]} end assign t 0 repeat %(m)d begin assign t {t + [h 20]} end print t',
+     lambda n: 20 * (n // 20)),
+]
+
+
+def _long_run(args):
+    text, want = args
+    w = world.World(world.POP_THREE)
+    res = w.run_script(text, cap=5000000)
+    outs = [e[1] for e in res.trace if e[0] == 'out']
+    if not res.accepted or res.abort or res.raised or res.capped or outs != [want]:
+        return ('long-run-goes-wrong', text, 'accepted=%r abort=%r raised=%r capped=%r printed %r, expected %r' % (
+            res.accepted, res.abort, res.raised, res.capped, outs[-3:], want))
+    return None
+
+
 def run(tier, seed):
     rep = Report()
     acc = progcheck.Accum()
@@ -23,10 +48,17 @@ def run(tier, seed):
     # light iteration pending: the caller continues unaffected
     acc.run('returns-from-nested-loops', 'mc.lang.gen_loops', 'returns_from_nested_programs', (world.POP_THREE,),
             world.POP_THREE, cap=8000)
+    from .. import par
+    n = 12000 if tier == 'quick' else 60000
+    tasks = [(t % dict(n=n, m=n // 20), f(n)) for t, f in LONG_RUNS]
+    for bad in par.run_tasks(_long_run, tasks):
+        if bad is not None:
+            rep.violation(bad[0], '%s: `%s`: %s' % (bad[0], bad[1][:200], bad[2]), {'script': bad[1], 'detail': bad[2]})
     acc.report(rep, 'recursion templates, two-routine programs (every call form x argument naming x context) and every '
                     'single-routine program with body cost <=%d x 6 parameter lists x every argument tuple x 4 call-site kinds; '
                     'printed values before/inside/after each call compared with the reference scoping rules; routines that return out '
-                    'of two nested loops of every kind, called from light/group/counted loops and inside expressions' % cost)
+                    'of two nested loops of every kind, called from light/group/counted loops and inside expressions; five scripts that '
+                    'make 12 000 (thorough 60 000) calls, returns out of nested loops, breaks or recursions in one run' % cost)
     return rep
 
 
